@@ -571,7 +571,7 @@ class SimplifyingSortingStringifyMapper(StringifyMapper):
             from pymbolic.primitives import Product, is_zero
 
             if isinstance(expr, Product) \
-                    and len(expr.children) and is_zero(expr.children[0]+1):
+                    and len(expr.children) > 1 and is_zero(expr.children[0]+1):
                 if len(expr.children) == 2:
                     # only the minus sign and the other child
                     return expr.children[1]
